@@ -23,20 +23,21 @@ import (
 
 // Thread is a logical thread.
 type Thread struct {
-	ID      int
-	Name    string
-	wake    chan struct{}
-	pred    func() bool // nil: runnable
-	desc    string
-	obj     uintptr
-	done    bool
-	started bool
-	idleOK  bool  // blocked in a wait that may legitimately last forever (silent transport)
-	yield   bool  // waiting for "something else to happen"
-	yieldAt int64 // progress counter value when the yield started
-	vc      []int // vector clock (hb.go)
-	exiting bool
-	exited  chan struct{}
+	ID           int
+	Name         string
+	wake         chan struct{}
+	pred         func() bool // nil: runnable
+	desc         string
+	obj          uintptr
+	done         bool
+	started      bool
+	idleOK       bool  // blocked in a wait that may legitimately last forever (silent transport)
+	waitsForWork bool  // parked in a receive / select of receives / condition wait
+	yield        bool  // waiting for "something else to happen"
+	yieldAt      int64 // progress counter value when the yield started
+	vc           []int // vector clock (hb.go)
+	exiting      bool
+	exited       chan struct{}
 }
 
 // Point is one recorded choice point.
@@ -91,28 +92,30 @@ type Exec struct {
 }
 
 type sched struct {
-	cfg      Config
-	threads  []*Thread
-	cur      *Thread
-	points   []Point
-	step     int
-	progress int64
-	trace    []string
-	failure  *Failure
-	aborting bool
-	diverged string
-	end      chan struct{}
-	ended    bool
-	wg       sync.WaitGroup
-	now      time.Duration
-	timers   []*timer
-	closed   map[uintptr]bool
-	keep     []interface{}
-	races    []string
-	raceSeen map[string]bool
-	hb       *hbState
-	nextObj  int
-	cleanup  []func()
+	cfg         Config
+	threads     []*Thread
+	cur         *Thread
+	points      []Point
+	step        int
+	progress    int64
+	pollQuanta  int // quanta of virtual time granted to polling threads since a non-polling step
+	trace       []string
+	failure     *Failure
+	aborting    bool
+	diverged    string
+	end         chan struct{}
+	ended       bool
+	wg          sync.WaitGroup
+	now         time.Duration
+	timers      []*timer
+	closed      map[uintptr]bool
+	recvWaiters map[uintptr]int // receivers waiting on logically unbuffered channels
+	keep        []interface{}
+	races       []string
+	raceSeen    map[string]bool
+	hb          *hbState
+	nextObj     int
+	cleanup     []func()
 }
 
 // S is the active execution (nil outside Run).
@@ -147,7 +150,8 @@ func Run(cfg Config, body func()) *Exec {
 		cfg.MaxSteps = 1000000
 	}
 	epoch++
-	s := &sched{cfg: cfg, end: make(chan struct{}), closed: map[uintptr]bool{}, raceSeen: map[string]bool{}}
+	forgetRunChannels()
+	s := &sched{cfg: cfg, end: make(chan struct{}), closed: map[uintptr]bool{}, recvWaiters: map[uintptr]int{}, raceSeen: map[string]bool{}}
 	if cfg.Races {
 		s.hb = newHB()
 	}
@@ -336,6 +340,31 @@ func (s *sched) pick(from *Thread) *Thread {
 			nAlt += len(s.timers)
 		}
 		if nThreads == 0 {
+			// quiescent. A thread that POLLS (Yield: a read loop spinning on a closed transport, code
+			// comparing the clock with a deadline of its own) experiences time passing: while such a
+			// thread exists virtual time advances in small quanta, so that a deadline kept in a plain
+			// variable expires in order with the registered timers - not only after the next timer,
+			// which may be hours away.
+			polling := false
+			for _, t := range s.threads {
+				if t.started && !t.done && t.yield {
+					polling = true
+				}
+			}
+			if polling && s.pollQuanta < 6000 {
+				const quantum = 100 * time.Millisecond
+				if et := s.earliestTimer(); et != nil && et.at <= s.now+quantum {
+					s.fireTimer(et)
+					continue
+				}
+				s.now += quantum
+				s.progress++
+				s.pollQuanta++
+				if s.cfg.TraceOps && s.pollQuanta%50 == 1 {
+					s.trace = append(s.trace, "polling: virtual time advanced to "+s.now.String())
+				}
+				continue
+			}
 			// quiescent: advance virtual time to the next timer
 			if len(s.timers) > 0 {
 				s.fireTimer(s.earliestTimer())
@@ -344,8 +373,13 @@ func (s *sched) pick(from *Thread) *Thread {
 			alive := false
 			var blocked []string
 			yielders := 0
+			// Once the main thread has returned the program would simply end: goroutines that wait
+			// for work then (parked in a receive, in a select of receives, in a condition wait) are
+			// idle workers, not a deadlock. A goroutine stuck in a SEND or on a lock is still reported:
+			// it holds something nobody will ever take.
+			mainDone := len(s.threads) > 0 && s.threads[0].done
 			for _, t := range s.threads {
-				if t.started && !t.done && !t.idleOK {
+				if t.started && !t.done && !t.idleOK && !(mainDone && t.waitsForWork) {
 					alive = true
 					blocked = append(blocked, fmt.Sprintf("T%d(%s) at %s", t.ID, t.Name, t.desc))
 					if t.yield {
@@ -384,6 +418,8 @@ func (s *sched) pick(from *Thread) *Thread {
 		t := en[idx]
 		if t.yield {
 			t.yield = false
+		} else {
+			s.pollQuanta = 0
 		}
 		return t
 	}
@@ -476,6 +512,7 @@ func (s *sched) point(desc string, obj uintptr, pred func() bool) {
 	}
 	t := s.cur
 	t.pred, t.desc, t.obj = pred, desc, obj
+	t.waitsForWork = pred != nil && (desc == "chan.recv" || desc == "Cond.Wait" || strings.HasSuffix(desc, "parked(recv-only)"))
 	if s.cfg.TraceOps {
 		s.trace = append(s.trace, fmt.Sprintf("T%d %s", t.ID, desc))
 	}
